@@ -32,6 +32,7 @@ type Case struct {
 	V      *VCase       `json:"v,omitempty"` // vector families (vector.go)
 	Ops    []HOp        `json:"ops,omitempty"` // mutator history between constructor and method (hist.go)
 	FP     *Params      `json:"fp,omitempty"`  // parameters reported after the history
+	W      *WCase       `json:"w,omitempty"`   // mixtures, skew normal, matrix families (wide.go)
 }
 
 func specialGammaP(a, x float64) float64 { return special.GammaP(a, x) }
@@ -119,6 +120,9 @@ func caseCoq(f *Fam, c Case) string {
 	if c.V != nil {
 		return vcaseCoq(c.Fam, *c.V, c.Obs)
 	}
+	if c.W != nil {
+		return "@W" + wCaseCoq(*c.W, c.Fn, c.Obs)
+	}
 	var hyps []string
 	seen := map[string]bool{}
 	hp := c.P // the parameters the special functions are called with: after a history, the final ones
@@ -180,7 +184,7 @@ func caseCoq(f *Fam, c Case) string {
 	return sb.String()
 }
 
-const shardHeader = "From Coq Require Import Reals ZArith List. Import ListNotations.\nFrom ADV Require Import C14.ER C14.Model C14.VModel C14.SModel C14.Corr C14.CorrH.\nOpen Scope R_scope.\nGoal True.\n"
+const shardHeader = "From Coq Require Import Reals ZArith List. Import ListNotations.\nFrom ADV Require Import C14.ER C14.Model C14.VModel C14.SModel C14.Corr C14.CorrH C14.MixModel C14.SkewModel C14.IWModel C14.Corr2.\nOpen Scope R_scope.\nGoal True.\n"
 
 // shards of `per` cases for props[0:split) and of `per2` cases for props[split:) (the vector cases, whose
 // certificates are slower); the case index printed on a mismatch is the global index
@@ -209,6 +213,8 @@ func writeShards(dir, stem string, props []string, per int, splits ...int) (int,
 			tac, pr := "chk", props[i]
 			if strings.HasPrefix(pr, "@H") { // mutator history: CorrH.solve_hcase
 				tac, pr = "chkh", pr[2:]
+			} else if strings.HasPrefix(pr, "@W") { // mixtures, skew normal, matrix families: Corr2.solve_wide
+				tac, pr = "chkw", pr[2:]
 			}
 			sb.WriteString(fmt.Sprintf("%s %d%%nat %s.\n", tac, i, pr))
 		}
@@ -271,6 +277,10 @@ func genCase(f *Fam, r *Rng) Case {
 func rerun(c Case) (Case, *Fam) {
 	if c.V != nil {
 		c.Obs, c.Incons = vecEvalAll(c.Fam, c.V)
+		return c, nil
+	}
+	if c.W != nil {
+		c.Obs, c.Incons = wEvalAll(c.W, c.Fn)
 		return c, nil
 	}
 	f := famByName(c.Fam)
@@ -399,6 +409,22 @@ func main() {
 		}
 		nontriv[fmt.Sprintf("%s/%v", fam, vc)] = true
 	}
+	// mixtures / skew normal / matrix families (wide.go)
+	wr := NewRng(o.Seed*1000003 + 77)
+	for k := 0; k < o.N/4; k++ {
+		c := genWCase(k, wr.Split())
+		cases = append(cases, c)
+		props = append(props, caseCoq(nil, c))
+		hist["family:"+c.Fam]++
+		hist["method:"+c.Fn]++
+		hist["outcome:"+c.Class]++
+		if c.Incons != "" {
+			incons = append(incons, c)
+		}
+		if c.Obs.Kind != "ctorerr" {
+			nontriv[fmt.Sprintf("%s/%s/%v", c.Fam, c.Fn, *c.W)] = true
+		}
+	}
 	per := 40
 	nsh, err := writeShards(o.Out, "cases", props, per, nScalar, 11)
 	if err != nil {
@@ -426,7 +452,10 @@ func main() {
 			"evaluation point inside / exactly on / just inside / just outside / outside the support (discrete: integers -3..n+3 and half-integers); " +
 			"1 in 7 parameter vectors is invalid (constructor error kind compared); run with Float64 and Real64 parameters and two previous " +
 			"contents of the result register (all four must agree bit for bit); non-trivial iff the constructor accepted the parameters " +
-			"(formula, guard or special-value path exercised); distinct = distinct (family, method, parameters, point)",
+			"(formula, guard or special-value path exercised); distinct = distinct (family, method, parameters, point); " +
+			"wide stream (n/4 cases, wide.go): scalar / vector mixtures of 1-4 components with unnormalised dyadic weights incl. zeros, negative, all-zero " +
+			"and miscounted weights, LogPdf / Posterior / Likelihood / stored log-weights, every component -Inf in 1 of 6; skew normal d = 1..3 (negative / zero " +
+			"scales, alpha = 0, dimension errors); inverse Wishart / normal-inverse-Wishart d = 1..3 (non-PD S or X, nu outside the textbook range, clones)",
 		"samples": samples, "histogram": hist, "shards": nsh, "per_shard": per,
 		"extra": map[string]interface{}{"inconsistent": incons, "tolerance": fmt.Sprintf("2^-%d * max(1,|value|)", tolBits)},
 	}
